@@ -462,13 +462,22 @@ def binop(I, st, op, a, b, inplace=False):
                 yield st, st.alloc(type(ea)(ea.items + eb.items))
             return
         if op == "Mult" and ea is not None and ea.kind == "list" and isinstance(b, int):
+            if inplace:  # lst *= n repeats the list object itself
+                ea.items[:] = ea.items * b
+                yield st, a
+                return
             yield st, st.alloc(type(ea)(ea.items * b))
             return
         if op == "Mult" and eb is not None and eb.kind == "list" and isinstance(a, int):
             yield st, st.alloc(type(eb)(eb.items * a))
             return
         if ea is not None and eb is not None and ea.kind == "set" and eb.kind == "set":
-            yield st, models.set_binop(I, st, op, ea, eb)
+            r = models.set_binop(I, st, op, ea, eb)
+            if inplace:  # s |= t, s &= t, s -= t, s ^= t update the set object itself (every reference sees it)
+                ea.items[:] = list(st.get(r).items)
+                yield st, a
+                return
+            yield st, r
             return
         raise Unsupported("binary %s on containers" % op)
     if isinstance(a, tuple) and isinstance(b, tuple) and op == "Add":
